@@ -51,6 +51,9 @@ var c12classes = []c12class{
 	{"index-nil", `{{ zq_xs[nil] }}`, true, false},
 	{"index-of-int", `{{ zq_i[0] }}`, true, false},
 	{"map-key-wrong-kind", `{{ zq_mi["a"] }}`, true, false},
+	{"map-unhashable-key", `{{ zq_many[zq_xs] }}`, true, false},
+	{"map-unhashable-dynamic-key", `{{ zq_many[zq_dyn] }}`, true, false},
+	{"map-unhashable-array-key", `{{ zq_mpair[zq_pair] }}`, true, false},
 	{"slice-bound-wrong-kind", `{{ zq_xs["a":1] }}`, true, false},
 	{"slice-end-wrong-kind", `{{ zq_xs[0:"b"] }}`, true, false},
 	{"slice-out-of-range", `{{ zq_xs[1:9] }}`, true, false},
@@ -118,6 +121,8 @@ func c12extra() map[string]interface{} {
 	return map[string]interface{}{
 		"zq_st": c12struct{A: "a"}, "zq_xs": []string{"x0", "x1", "x2"}, "zq_s": "str", "zq_i": 7, "zq_mi": map[int]string{1: "one"},
 		"zq_nilp": (*c12struct)(nil), "zq_ch": ch,
+		"zq_many": map[interface{}]string{"a": "x"}, "zq_dyn": struct{ ID interface{} }{[]int{7}},
+		"zq_mpair": map[[2]interface{}]string{{"a", 1}: "x"}, "zq_pair": [2]interface{}{"a", map[string]int{"z": 1}},
 		"zq_stringer": func(s fmt.Stringer) string { return s.String() },
 		"zq_fail":     func() string { panic(errors.New("zq_fail reports an error")) },
 		"zq_fail1":    func(int) string { panic(fmt.Errorf("zq_fail1 reports an error")) },
